@@ -63,9 +63,13 @@ def defaults(ctx):
 
     def in_lits(e, s, tr):
         lits = e['_L']
-        if not isinstance(lits, (ast.Tuple, ast.List, ast.Set)):
+        if isinstance(lits, ast.Dict) and all(k is not None for k in lits.keys):
+            elts = lits.keys
+        elif isinstance(lits, (ast.Tuple, ast.List, ast.Set)):
+            elts = lits.elts
+        else:
             return None
-        for x in lits.elts:
+        for x in elts:
             r_ = cmp_lit({'_A': e['_A'], '_B': x}, s, tr)
             if r_ is None:
                 return None
@@ -82,7 +86,16 @@ def defaults(ctx):
         st = {'type': ty, 'declared_case': declared_case, 'has_mm': has_mm}
         spelled = ty if declared_case else ty.lower()
         desc = "default_value(%r, metamodel=%s)" % (spelled, 'yes' if has_mm else 'none')
-        out, tr = it.run(dict(st))
+        state = dict(st)
+        out, tr = it.run(state)
+        if out.kind == 'return' and out.value is not None:
+            # table-driven spelling: {'BOOLEAN': False, ..}[<normalised type name>]
+            found, sel = absint.dict_lookup(out.value, lambda k, kn: cmp_lit({'_A': k, '_B': kn}, state, tr))
+            if found:
+                if sel is None:
+                    out = absint.Outcome('raise', out.node, ast.parse('KeyError()').body[0].value)
+                else:
+                    out = absint.Outcome('return', out.node, sel)
         if ty in DEFAULTS:
             want_t, want_v = DEFAULTS[ty]
             ok = (out.kind == 'return' and isinstance(out.value, ast.Constant)
